@@ -109,6 +109,20 @@ def afterWidth (a : Abs) (o : Op) : Option Nat :=
   else if !a.widthDone && a.depth ≥ 1 && legalCount o (a.depth - 1) then some (a.depth - 1)
   else none
 
+/-- stack effect (operands taken, results pushed) of the arithmetic and conditional operators whose
+behaviour does not depend on operand VALUES (TN5177 §4.4, §4.5).  `div`, `sqrt` (undefined for a zero
+divisor / negative operand), `put`, `get`, `index`, `roll` (operand values select stack or storage
+positions) are outside this static grammar. -/
+def arithEffect : Op → Option (Nat × Nat)
+  | .abs | .neg | .not => some (1, 1)
+  | .add | .sub | .mul | .eq | .and | .or => some (2, 1)
+  | .drop => some (1, 0)
+  | .dup => some (1, 2)
+  | .exch => some (2, 2)
+  | .ifelse => some (4, 1)
+  | .random => some (0, 1)
+  | _ => none
+
 /-- one token of the grammar; `none` = not well formed.  Operands are limited to ±32000, the
 range in which the Go decoder does not clamp (see finding C05-clamp). -/
 def wfTok (a : Abs) : Tok → Option Abs
@@ -121,15 +135,20 @@ def wfTok (a : Abs) : Tok → Option Abs
     else if isMoveto o then
       (afterWidth a o).map fun _ => { a with depth := 0, widthDone := true, moved := true }
     else if isPathOp o then
-      -- flex1 and hflex1 derive a delta from sums of operands; they are outside the core grammar
-      if a.moved && legalCount o a.depth && o != .flex1 && o != .hflex1 then some { a with depth := 0 } else none
+      if a.moved && legalCount o a.depth then some { a with depth := 0 } else none
     else if isStem o then
       if a.stage ≤ 1 && !a.moved then
         (afterWidth a o).map fun n => { a with depth := 0, widthDone := true, stage := 1, nStems := a.nStems + n / 2 }
       else none
     else if o == .endchar then
       (afterWidth a o).map fun _ => { a with depth := 0, widthDone := true, ended := true }
-    else none
+    else
+      match arithEffect o with
+      | some (pops, pushes) =>
+        if pops ≤ a.depth && a.depth - pops + pushes ≤ Gen.t2maxStack then
+          some { a with depth := a.depth - pops + pushes }
+        else none
+      | none => none
   | .mask _ bs =>
     if a.ended then none
     else
@@ -155,5 +174,21 @@ def wfCheck (p : Program) : Bool :=
 def WF (p : Program) : Prop := wfCheck p = true
 
 instance (p : Program) : Decidable (WF p) := inferInstanceAs (Decidable (_ = true))
+
+/-- Tokens on which the Go decoder is known to agree with the specification (given operands within
+±32000, which `wfTok` already demands of every literal operand).  Excluded, each a decidable syntactic
+condition: `mul` (finding C05-mul); `add`, `sub` (their results are not statically within ±32000, the
+range outside which the Go decoder clamps deltas: finding C05-clamp); `flex1`, `hflex1` (they derive
+one delta as a sum of up to five operands, which can leave ±32000: C05-clamp again). -/
+def agreesTok : Tok → Bool
+  | .op o => !(o == .mul || o == .add || o == .sub || o == .flex1 || o == .hflex1)
+  | _ => true
+
+/-- decidable: every token agrees -/
+def agreesCheck (p : Program) : Bool := p.all agreesTok
+
+def Agrees (p : Program) : Prop := agreesCheck p = true
+
+instance (p : Program) : Decidable (Agrees p) := inferInstanceAs (Decidable (_ = true))
 
 end SfntV.Spec.T2
